@@ -12,8 +12,10 @@ Contract monitored (taken from the property statement, not from the code).  For 
 
   (a) R(T) = not a formula (adjacent operands, dangling / doubled operator, unbalanced bracket, stray separator,
       unknown function, argument count outside SPEC, unterminated text ...)
-          => Parser.get_translation must raise E2PyclParserException.
-  (b) R(T) = formula with value v   => E2PyclParserException (rejected as a whole), or a class that loads and
+          => Parser.get_translation must raise E2PyclParserException (the sibling E2PyclCellException, raised for an
+             unknown sheet title, is also counted as a refusal by the library: the property's outcome classes are
+             value / library exception / foreign exception).
+  (b) R(T) = formula with value v   => library exception (rejected as a whole), or a class that loads and
       evaluates the cell to v.  Anything else (other value = some part of T was dropped or mis-read, foreign
       exception, module that does not compile) is a violation.
   (c) R(T) = formula, but the evaluator has no clause for its value (see `rule`) => only: no foreign exception and
@@ -21,7 +23,9 @@ Contract monitored (taken from the property statement, not from the code).  For 
   (d) T' = T with white space inserted between tokens, or with ',' / ';' exchanged => same outcome as T.
 
 Operator precedence itself belongs to C01: formulas whose value depends on the relative precedence of a sign, a
-comparison or & against a neighbouring operator are evaluated under (c) only (`precedence_safe`)."""
+comparison, % or & against a neighbouring operator are evaluated under (c) only (`precedence_safe`).  Likewise the
+meaning of a wild-card text outside a criterion (C07/C12), the text form of computed numbers (C17) and the
+semantics of each function beyond the canonical calls of `canonical_args` are not judged here."""
 import datetime
 import itertools
 import multiprocessing
@@ -538,6 +542,8 @@ def ev(e):
     k = e[0]
     if k == 'num':
         return Fraction(e[1])
+    if k == 'str' and re.search(r'(?<!~)[?*]', e[1]):
+        raise NoClause('text with a wild card outside a criterion (C12/C07)')
     if k in ('str', 'bool'):
         return e[1]
     if k == 'ref':
@@ -946,25 +952,6 @@ def swallow_feature(text):
     return False
 
 
-def _count_feature(e):
-    if e is None or not isinstance(e, tuple):
-        return False
-    k = e[0]
-    if k == 'call':
-        if e[1] == 'COUNT' and any(a is not None and a[0] not in ('num', 'str', 'bool', 'ref', 'range') for a in e[2]):
-            return True
-        return any(_count_feature(a) for a in e[2])
-    if k == 'bin':
-        return _count_feature(e[2]) or _count_feature(e[3])
-    if k == 'un':
-        return _count_feature(e[2])
-    if k in ('pct', 'par'):
-        return _count_feature(e[1])
-    if k == 'union':
-        return any(_count_feature(a) for a in e[1])
-    return False
-
-
 def root_tag(text):
     """name of a known root cause whose trigger is present in the text (used for the failure key only, never for the verdict)"""
     if swallow_feature(text):
@@ -972,11 +959,6 @@ def root_tag(text):
     m = mask_texts(text)
     if re.search(r'%[ \t\n]*["(\d.A-Za-z$\']', m):
         return 'grammar.percent_as_binary_operator'
-    try:
-        if _count_feature(_P(rlex(text)).parse()):
-            return 'translator.COUNT_non_simple_argument'
-    except (RefError, RecursionError):
-        pass
     if re.search(r"'[^']*'!\$?[A-Z]+\$?\d+(?![\d:]).*'[^']*'!\$?[A-Z]+\$?\d*:", m, re.S):
         return 'lexer.quoted_sheet_prefix_span'
     if re.search(r"(?<![A-Za-z0-9_$.'])!", m):
@@ -1130,9 +1112,9 @@ def _embed(call, how):
 def arity_jobs(tier, rng):
     jobs = []
     for name in sorted(SPEC):
-        counts = list(range(0, 9)) + [12, 13, 30, 31]
+        counts = list(range(0, 8)) + [30, 31]
         if tier == 'thorough':
-            counts += [9, 10, 11, 64, 65, 254, 255]
+            counts += [8, 9, 10, 11, 12, 13, 64, 65, 254, 255]
         for n in counts:
             args, _ = canonical_args(name, n)
             if len(args) != n:
@@ -1167,7 +1149,7 @@ def check_arity(tier, rng):
     fails = _collect_single(res)
     st = _stats(res)
     return {'name': 'C05.monitor.function_arity',
-            'bound': f'{len(SPEC)} supported functions x argument counts 0..8, 12, 13, 30, 31' + (', 9..11, 64, 65, 254, 255' if tier == 'thorough' else '')
+            'bound': f'{len(SPEC)} supported functions x argument counts 0..7, 30, 31' + (', 8..13, 64, 65, 254, 255' if tier == 'thorough' else '')
                      + " x separators (all ',', all ';', alternating) x embeddings (bare, 1+f, f+1, IF argument, (f), SUM argument)"
                        ' + one empty argument at every position for 1..4 arguments; whole-file and entry-cell translation, safety check on/off',
             'rule': 'one evaluation = one workbook translated through Parser.get_translation and S!Z1 evaluated; a count outside the '
@@ -1213,8 +1195,8 @@ def mutation_jobs(tier, rng):
             seen.add(f)
             jobs.append((f, mode, False))
     thorough = tier == 'thorough'
-    pair_alpha = APPEND2 if thorough else [')', '(', '+', ',', '%', '1', '"x"', 'A1']
-    ins_alpha = APPEND1 if thorough else [')', '(', '+', '*', ',', '%', '=', '1', '"x"', 'A1']
+    pair_alpha = APPEND2 if thorough else [')', '+', ',', '%', '1', 'A1']
+    ins_alpha = APPEND1 if thorough else [')', '(', '+', ',', '%', '1', '"x"']
     for b in BASES:
         add(b)
         add(b, 'entry')
@@ -1248,7 +1230,7 @@ def mutation_jobs(tier, rng):
                 if thorough:
                     add(render(toks[:i] + [a] + toks[i:], ' '))
     # seeded multi-mutations
-    n_random = 30000 if tier == 'thorough' else 1500
+    n_random = 30000 if tier == 'thorough' else 1000
     alphabet = APPEND1 + ['3', '4', '"y"', 'B1', 'MAX', 'LEFT', 'AND', 'C1', '0.5']
     for _ in range(n_random):
         toks = tok_texts(rng.choice(BASES))
@@ -1276,9 +1258,9 @@ def check_mutations(tier, rng):
     return {'name': 'C05.monitor.token_mutations',
             'bound': f'{len(BASES)} well-formed base formulas (every token kind, {len(SPEC)}-function grammar, nested calls, % and signs, '
                      f'sheet prefixes, texts containing separators and doubled quotes) x [one trailing token from {len(APPEND1)} glued / after a blank; '
-                     f'two trailing tokens from {14 if tier == "thorough" else 8}^2' + (', three from 8^3' if tier == 'thorough' else '') +
+                     f'two trailing tokens from {14 if tier == "thorough" else 6}^2' + (', three from 8^3' if tier == 'thorough' else '') +
                      '; every single deletion, duplication, adjacent swap, proper prefix; every single insertion of one of '
-                     f'{len(APPEND1) if tier == "thorough" else 10} tokens at every position] + {30000 if tier == "thorough" else 1500} seeded 1..4-step mutations',
+                     f'{len(APPEND1) if tier == "thorough" else 7} tokens at every position] + {30000 if tier == "thorough" else 1000} seeded 1..4-step mutations',
             'rule': 'one evaluation = one distinct cell text; the reference lexer/parser reads the COMPLETE text: not a formula -> must raise '
                     'E2PyclParserException; formula -> exception or the value of the complete text (value clause only where the reference '
                     'evaluator defines it and precedence is not involved).  classes: ' + ', '.join(f'{k}:{v}' for k, v in sorted(st.items())),
@@ -1333,11 +1315,13 @@ def ws_jobs(tier, rng):
                 vs.append(insert_ws(b, {i: w}))
         for w in WS_KINDS:
             vs.append(insert_ws(b, {i: w for i in bs}))
-        for _ in range(60 if tier == 'thorough' else 6):
+        for _ in range(60 if tier == 'thorough' else 3):
             vs.append(insert_ws(b, {i: rng.choice(WS_KINDS) for i in bs if rng.random() < 0.5}))
         # continuation lines starting in column 0 with an operator / operand
         vs.append(insert_ws(b, {i: '\n' for i in bs[1:]}))
-        jobs.append((b, sorted(set(vs)), 'whitespace'))
+        vs = sorted(set(vs))
+        for i in range(0, len(vs), 16):
+            jobs.append((b, vs[i:i + 16], 'whitespace'))
     return jobs
 
 
@@ -1386,7 +1370,7 @@ def sep_jobs(tier, rng):
     for b in SEP_BASES:
         pos = sep_positions(b)
         k = len(pos)
-        if k <= (10 if tier == 'thorough' else 6):
+        if k <= (10 if tier == 'thorough' else 7):
             combos = list(itertools.product(',;', repeat=k))
         else:
             combos = [tuple(rng.choice(',;') for _ in range(k)) for _ in range(64)] + [(',',) * k, (';',) * k]
@@ -1411,7 +1395,7 @@ def check_separators(tier, rng):
     return {'name': 'C05.monitor.separators',
             'bound': f"{len(SEP_BASES)} formulas (every function that takes 2+ arguments, nested calls, unions, texts containing ',' and ';', "
                      "5 malformed) x every assignment of ',' / ';' to the argument separators (exhaustive up to "
-                     f"{10 if tier == 'thorough' else 6} separators, 64 seeded assignments beyond)",
+                     f"{10 if tier == 'thorough' else 7} separators, 64 seeded assignments beyond; the longest base has 7)",
             'rule': "one evaluation = one assignment translated and evaluated; outcome must equal the all-',' text (and the reference value); "
                     'separator characters inside quoted texts are data',
             'exhaustive': True, 'evaluations': sum(r['n'] for r in res), 'distinct_nontrivial': sum(r['nontrivial'] for r in res),
@@ -1420,7 +1404,7 @@ def check_separators(tier, rng):
 
 
 # ====================================================================================================== check 5: contexts
-DEEP_LIMIT = 3.0
+DEEP_LIMIT = 10.0   # nest 4 / brackets 12 need ~3-4 s, nest 5 ~30 s, brackets 16 ~70 s: the sizes below stay clear of the limit
 MALFORMED = ['=1 2', '=1+', '=1+2)', '=(1+2', '=SUM(1,2) 4', '=A1 B1', '=IF(A1>0,1,2,4)', '=1,', '=1%%', '=SUM(1,2)+', '="a" "b"',
              '=DAY(D1,2)', '=TODAY(1)', '=1**2']
 
@@ -1574,17 +1558,17 @@ def ctx_cases(tier):
         cases.append({'kind': 'twosheets', 'bad': bad, 'key': 'C05.context.two_sheets'})
     for text in ['=SUM(A1:A2)', '=SUM(A1:A2) ', ' =SUM(A1:A2)', '=SUM(A1:A2) 4', '=SUM(A1:A2))', '=SUM(A1:A2)+', '=A1+A2\n', '=1 2']:
         cases.append({'kind': 'array', 'text': text, 'key': 'C05.context.array_formula'})
-    for n in (20, 60, 150, 300, 330, 360, 400, 500) + ((700, 1000, 2500, 4000) if tier == 'thorough' else (1000,)):
+    for n in (20, 60, 150, 300, 500, 950, 990, 1000) + ((2500, 4000) if tier == 'thorough' else ()):
         cases.append({'kind': 'long', 'n': n, 'key': 'C05.long_formula'})
         cases.append({'kind': 'long', 'n': n, 'tail': ')', 'key': 'C05.long_formula'})
         cases.append({'kind': 'long', 'n': n, 'tail': ' 1', 'entry': True, 'key': 'C05.long_formula'})
-    deep = (('nest', (1, 2, 3, 4, 5, 6) + ((8, 64) if tier == 'thorough' else ())),
-            ('parens', (1, 2, 4, 8, 12, 14, 16) + ((20, 64) if tier == 'thorough' else ())), ('longtext', (10, 51, 300, 5000)))
+    deep = (('nest', (1, 2, 3, 5, 6) + ((8, 64) if tier == 'thorough' else ())),
+            ('parens', (1, 2, 4, 8, 16) + ((20, 64) if tier == 'thorough' else ())), ('longtext', (10, 51, 300, 5000)))
     for kind, ns in deep:
         for n in ns:
             cases.append({'kind': kind, 'n': n, 'key': 'C05.deep_formula.' + kind})
             cases.append({'kind': kind, 'n': n, 'tail': ')', 'entry': True, 'key': 'C05.deep_formula.' + kind})
-            if n <= 4 or kind == 'longtext' or tier == 'thorough':
+            if n <= 4 or kind == 'longtext':
                 cases.append({'kind': kind, 'n': n, 'tail': ' 1', 'key': 'C05.deep_formula.' + kind})
                 cases.append({'kind': kind, 'n': n, 'cut': 1, 'key': 'C05.deep_formula.' + kind})
     return cases
@@ -1600,8 +1584,8 @@ def check_contexts(tier, rng):
                      + '), the second sheet; read from a well-formed entry cell directly / through areas / whole columns / criteria ranges / '
                        'the untaken IF branch / another sheet; one Parser object re-used over good, malformed, good workbooks (with and '
                        'without entry cell, get_translation called once or twice); same text on two sheets; array-formula cells; chains '
-                       '=1+1+...+1 of 20..' + ('4000' if tier == 'thorough' else '1000') + ' terms, SUM nested 1..6 deep, brackets '
-                       'nested 1..16 deep' + (' (and 8 / 20 / 64 deep)' if tier == 'thorough' else '') + ' under a CPU limit of 3 s each, text literals of 10..5000 characters, each complete, with one trailing token, and cut by one character',
+                       '=1+1+...+1 of 20..' + ('4000' if tier == 'thorough' else '1000') + ' terms, SUM nested 1, 2, 3, 5, 6 deep, brackets '
+                       'nested 1, 2, 4, 8, 16 deep' + (' (and 8 / 20 / 64 deep)' if tier == 'thorough' else '') + ' under a CPU limit of 10 s each, text literals of 10..5000 characters, each complete, with one trailing token, and cut by one character',
             'rule': 'one evaluation = one scenario; a malformed text that is translated (whole file, or reachable from the entry cell) must '
                     'raise E2PyclParserException in every place and API order, a well-formed one must keep its value; a re-used Parser '
                     'must not hand out the previous translation after a rejection',
@@ -1644,7 +1628,7 @@ def gen_text_expr(rng):
 
 
 def gen_jobs(tier, rng):
-    n = 30000 if tier == 'thorough' else 2000
+    n = 30000 if tier == 'thorough' else 1500
     seen, jobs = set(), []
     tails = [')', ' 1', '+', ',', '%%', ' A1', '(', ',1', ')+1', ' "x"', ';', '*', '&', '=', '""']
     while len(jobs) < n:
